@@ -153,7 +153,9 @@ func (s *SourceSplitter) Close() error {
 
 // Checkpoint returns a snapshot of the splitter's state for checkpointing.
 func (s *SourceSplitter) Checkpoint() []byte {
-	splits := s.splitTracker.AssignedSplits()
+	// Child shards that wait for their parents are saved too: they are older than
+	// the last assigned shard ID so they'd never be discovered again after a restore.
+	splits := s.splitTracker.KnownSplits()
 	pbShards := make([]*kinesispb.SourceSplitterShard, len(splits))
 	for i, shard := range splits {
 		pbShards[i] = shard.toProto()
